@@ -4,7 +4,7 @@
 //! sums kept in i128) give mean and population std of all values so far; running peak and the
 //! largest (peak - x)/peak; ln(x_t / x_(t-1)).  The real code is run at the exact scalar (equality,
 //! streams <= 3000) and at f64 on long streams (1e5 quick / 1e7 thorough) with the same tolerance
-//! 1e-9 of scale at every length ("no growth beyond rounding noise").
+//! 1e-11 of scale at every length ("no growth beyond rounding noise").
 
 use super::{hash_str, mix};
 use crate::dynview::{build_plain, Kind, Spec};
@@ -33,8 +33,11 @@ enum Shape {
     Flats,
     /// values spread over three decades
     ThreeDecades,
+    /// a high level with a small spread (990 + up to 1/32, 5/16 or 10 by seed): where a sum of
+    /// squares minus the squared mean cancels
+    Narrow,
 }
-const SHAPES: [Shape; 7] = [Shape::Walk, Shape::PeaksAndTroughs, Shape::EqualPeaks, Shape::Rising, Shape::Falling, Shape::Flats, Shape::ThreeDecades];
+const SHAPES: [Shape; 8] = [Shape::Walk, Shape::PeaksAndTroughs, Shape::EqualPeaks, Shape::Rising, Shape::Falling, Shape::Flats, Shape::ThreeDecades, Shape::Narrow];
 
 /// integer stream k_t (value = k_t / 64), positive
 struct Stream {
@@ -43,10 +46,12 @@ struct Stream {
     k: i64,
     t: u64,
     len: u64,
+    /// Narrow: number of distinct levels (k in 64 x 990 + [0, width))
+    width: u64,
 }
 impl Stream {
     fn new(shape: Shape, seed: u64, len: u64) -> Stream {
-        Stream { shape, st: seed | 1, k: 64 * 100, t: 0, len }
+        Stream { shape, st: seed | 1, k: 64 * 100, t: 0, len, width: [3u64, 21, 641][((seed >> 7) % 3) as usize] }
     }
     fn r(&mut self, n: u64) -> i64 {
         self.st = self.st.wrapping_mul(6364136223846793005).wrapping_add(1442695040888963407);
@@ -88,6 +93,10 @@ impl Stream {
             Shape::ThreeDecades => {
                 let e = self.r(3);
                 64 * [1i64, 10, 100][e as usize] + self.r(64 * 9 * [1i64, 10, 100][e as usize] as u64)
+            }
+            Shape::Narrow => {
+                let w = self.width;
+                64 * 990 + self.r(w)
             }
         };
         let k = if k < lo {
@@ -204,11 +213,12 @@ fn run_f64(vi: usize, shape: Shape, seed: u64, len: u64, out: &mut TrialOut) {
                 let es = ev.max(0.0).sqrt();
                 let g = got.unwrap_or(f64::NAN);
                 worst = worst.max((g - es).abs() / scale).max((m - em).abs() / scale);
-                if !((m - em).abs() <= 1e-9 * scale) {
+                // rounding noise of Welford's update on these streams: <= 6e-14 of scale at 1.7e7 values
+                if !((m - em).abs() <= 1e-11 * scale) {
                     fail(out, name, "mean", "f64", t, format!("mean() = {:e}", m), format!("{:e}", em), shape, seed);
                     return;
                 }
-                if !((g - es).abs() <= 1e-9 * scale) || !((var - ev).abs() <= 1e-9 * scale * scale) {
+                if !((g - es).abs() <= 1e-11 * scale) || !((var - ev).abs() <= 1e-11 * scale * scale) {
                     fail(out, name, "population-std", "f64", t, format!("last() = {:e}, variance() = {:e}", g, var), format!("std {:e}, variance {:e}", es, ev), shape, seed);
                     return;
                 }
@@ -217,7 +227,7 @@ fn run_f64(vi: usize, shape: Shape, seed: u64, len: u64, out: &mut TrialOut) {
                 let e = b.dd_f();
                 let g = got.unwrap_or(f64::NAN);
                 worst = worst.max((g - e).abs());
-                if !((g - e).abs() <= 1e-9) {
+                if !((g - e).abs() <= 1e-12) {
                     fail(out, name, "max-relative-decline", "f64", t, format!("{:e}", g), format!("{:e} = {}/{}", e, b.max_dd.0, b.max_dd.1), shape, seed);
                     return;
                 }
@@ -340,7 +350,7 @@ impl Monitor for C13 {
         v
     }
     fn rule(&self) -> String {
-        "trial = (WelfordRolling | Drawdown | LnReturn; stream shape: reflected walk, peaks after deeper troughs, repeated equal peaks, monotone runs, long flat stretches, three decades; seed; length). After every update: mean()/variance()/last() vs exact mean and population variance/std of all values so far (integer-scaled sums in i128), Drawdown vs the largest (peak_j - x_j)/peak_j over all j with the running peak, LnReturn vs ln(x_t/x_(t-1)). Equality at the exact scalar (1.2e3 / 3e3 values); at f64 tolerance 1e-9 of scale (1e-14 for LnReturn) at every step of streams of L, 4L and 16L values (L = 2e4 quick, 6e5 thorough: 16L = 3.2e5 / ~1e7), the same tolerance at every length. distinct = distinct (view, shape, seed, length)".into()
+        "trial = (WelfordRolling | Drawdown | LnReturn; stream shape: reflected walk, peaks after deeper troughs, repeated equal peaks, monotone runs, long flat stretches, three decades, a high level with a small spread (990 + up to 1/32, 5/16 or 10); seed; length). After every update: mean()/variance()/last() vs exact mean and population variance/std of all values so far (integer-scaled sums in i128), Drawdown vs the largest (peak_j - x_j)/peak_j over all j with the running peak, LnReturn vs ln(x_t/x_(t-1)). Equality at the exact scalar (1.2e3 / 3e3 values); at f64 tolerance 1e-11 of scale (observed on the unchanged tree: 6e-14; Drawdown 1e-12, LnReturn 1e-14) at every step of streams of L, 4L and 16L values (L = 2e4 quick, 6e5 thorough: 16L = 3.2e5 / ~1e7), the same tolerance at every length. distinct = distinct (view, shape, seed, length)".into()
     }
     fn assumptions(&self) -> Vec<String> {
         vec!["positive inputs k/64 in [1, 1000]".into(), "'any length' restated as: the same tolerance holds at L, 4L, 16L".into()]
